@@ -82,6 +82,8 @@ def exercise(c: gen.Compiled, seed: int, n_calls: int, pydantic: bool = False):
                         full_by_cls[cls] = full
 
     def make_value(cls):
+        if rng.random() < 0.2:
+            return cls()  # a message holding nothing but defaults: an empty payload on the wire
         full = full_by_cls.get(cls)
         if full is None:
             if pydantic:
@@ -316,6 +318,10 @@ def exercise(c: gen.Compiled, seed: int, n_calls: int, pydantic: bool = False):
                             fails.append(("unexpected_grpc_error", f"{where}|{err.status.name}", f"{route}: {err!r}"))
                         elif not _same(got_reps, reps):
                             fails.append(("response_not_intact", where, f"{route}: caller got {got_reps!r:.200}, handler gave {reps!r:.200}"))
+                    # what was received belongs to the receiver: it may write into it (a handler filling in defaults, a
+                    # caller appending to a list) - nothing of that may show in messages that arrive later
+                    for obj in (received if isinstance(received, list) else [received]) + list(got_reps or []):
+                        scribble(obj)
                     # option precedence, observed at the channel.request() boundary
                     if len(proxy.calls) != 1:
                         fails.append(("channel_request_count", where, f"{route}: {len(proxy.calls)} channel.request() calls"))
@@ -359,6 +365,35 @@ def _record(seen, ev):
     return cb
 
 
+def scribble(msg) -> None:
+    """Write into a received message: every list grows, every int / str field of the message itself changes."""
+    import dataclasses
+
+    import betterproto
+
+    if not dataclasses.is_dataclass(msg):
+        return
+    for f in dataclasses.fields(msg):
+        meta = betterproto.FieldMetadata.get(f)
+        try:
+            v = getattr(msg, f.name)
+        except AttributeError:
+            continue
+        try:
+            if isinstance(v, list):
+                v.append(v[0] if v else ("scribbled" if meta.proto_type == "string" else (b"s" if meta.proto_type == "bytes" else 7)))
+            elif isinstance(v, dict):
+                pass
+            elif meta.group or meta.optional:
+                pass
+            elif meta.proto_type in ("int32", "int64", "uint32", "uint64", "sint32", "sint64") and isinstance(v, int) and not isinstance(v, bool):
+                setattr(msg, f.name, 7 if v != 7 else 8)
+            elif meta.proto_type == "string" and isinstance(v, str):
+                setattr(msg, f.name, v + "~")
+        except Exception:  # noqa: BLE001 - the receiver's own business
+            pass
+
+
 def mutate_in_place(msg, rng) -> bool:
     """Change `msg` WITHOUT assigning one of its own attributes: append to a list, set a map item, or assign inside a
     nested message. Returns False when the message type offers nothing of the kind."""
@@ -382,8 +417,13 @@ def mutate_in_place(msg, rng) -> bool:
             for g in dataclasses.fields(v):
                 meta = betterproto.FieldMetadata.get(g)
                 if meta.proto_type in ("int32", "int64", "uint32", "uint64", "sint32", "sint64") and not meta.group and not meta.optional:
-                    cands.append(("nested", (v, g.name)))
-                    break
+                    try:
+                        cur = getattr(v, g.name)
+                    except AttributeError:
+                        continue
+                    if isinstance(cur, int) and not isinstance(cur, bool):  # (a repeated int32 has the same proto_type)
+                        cands.append(("nested", (v, g.name)))
+                        break
     if not cands:
         return False
     kind, target = cands[rng.randrange(len(cands))]
@@ -439,7 +479,27 @@ def targets(ctx):
         return Eval(fails, weight=max(1, stats.get("calls", 0)), nontrivial_count=stats.get("nontrivial", 0),
                     labels=sorted(stats.get("labels", [])) + (["inconclusive_step_limit"] if stats.get("inconclusive") else []))
 
+    # request / response types whose NAMES matter to the generated stub: a request message named after the child package
+    # it lives in (its parameter must not hide the module alias the response type is reached through), request messages
+    # named like the stub's own keyword parameters, the same names in another package
+    SHAPES_PROTO = {
+        "shop.proto": 'syntax = "proto3";\npackage shop;\nimport "shop_order.proto";\nimport "billing.proto";\n'
+                      "message Cart { int32 n = 1; int32 mk20001 = 20001; }\nmessage Timeout { int32 s = 1; int32 mk20008 = 20008; }\n"
+                      "message Metadata { string k = 1; int32 mk20009 = 20009; }\nmessage Deadline { int32 s = 1; int32 mk20010 = 20010; }\n"
+                      "message Request { int32 s = 1; int32 mk20011 = 20011; }\nmessage Stream { int32 s = 1; int32 mk20012 = 20012; }\n"
+                      "service Shop {\n  rpc Place (shop.order.Order) returns (shop.order.Receipt);\n  rpc PlaceMany (stream shop.order.Order) returns (shop.order.Receipt);\n"
+                      "  rpc Track (shop.order.Order) returns (stream shop.order.Receipt);\n  rpc Talk (stream shop.order.Order) returns (stream shop.order.Receipt);\n"
+                      "  rpc Pay (billing.Order) returns (shop.order.Receipt);\n  rpc Meta (billing.Metadata) returns (billing.Timeout);\n  rpc Dl (billing.Deadline) returns (billing.Metadata);\n"
+                      "  rpc OwnT (Timeout) returns (Cart);\n  rpc OwnM (Metadata) returns (Deadline);\n  rpc OwnD (Deadline) returns (Metadata);\n  rpc OwnTs (stream Timeout) returns (stream Metadata);\n"
+                      "  rpc OwnR (Request) returns (Stream);\n  rpc OwnS (Stream) returns (stream Request);\n}\n",
+        "shop_order.proto": 'syntax = "proto3";\npackage shop.order;\nmessage Order { int32 id = 1; repeated string items = 2; int32 mk20002 = 20002; }\nmessage Receipt { int32 id = 1; int32 mk20003 = 20003; }\n',
+        "billing.proto": 'syntax = "proto3";\npackage billing;\nmessage Order { int32 id = 1; int32 mk20004 = 20004; }\nmessage Metadata { string k = 1; int32 mk20005 = 20005; }\n'
+                         "message Timeout { int32 s = 1; int32 mk20006 = 20006; }\nmessage Deadline { int32 s = 1; int32 mk20007 = 20007; }\n",
+    }
+
     def fixed_cases():
+        yield {"fixed": "type_names_that_matter_to_the_stub", "seed": 400 + ctx.seed * 10}
+        yield {"fixed": "type_names_that_matter_to_the_stub", "seed": 500 + ctx.seed * 10, "opts": ["pydantic_dataclasses"]}
         for s in range(3):
             yield {"fixed": "all_cardinalities_service", "seed": 100 + s + ctx.seed * 10}
         # the same service generated with the other plugin options
@@ -448,7 +508,8 @@ def targets(ctx):
 
     def fixed_ev(case):
         opts = case.get("opts", [])
-        found, stats = run(SERVICE_PROTO, case["seed"], 40 if not ctx.thorough else 200, opts)
+        proto = SHAPES_PROTO if case["fixed"] == "type_names_that_matter_to_the_stub" else SERVICE_PROTO
+        found, stats = run(proto, case["seed"], 40 if not ctx.thorough else 200, opts)
         if opts:
             found = [(cl, "+".join(opts) + "|" + where, d) for cl, where, d in (found or [])]
             stats.setdefault("labels", set()).add("variant:" + "+".join(opts))
